@@ -517,7 +517,7 @@ func CheckMW(c MWCase) *kit.Violation {
 		}
 		mine := path.Clean(q.Path) == doc
 		body := rec.Body.String()
-		ct := rec.Header().Get("Content-Type")
+		ct := rec.Result().Header.Get("Content-Type")
 		if mine {
 			if next.calls != 0 {
 				return kit.Failf("NOT-ANSWERED %s cleans to the document path but was handed to the next handler\n%s", what, c.brief())
@@ -565,8 +565,8 @@ func CheckMW(c MWCase) *kit.Violation {
 			// the composed answer equals what the next handler produces on its own
 			alone := httptest.NewRecorder()
 			(&recorder{}).ServeHTTP(alone, newRequest(q))
-			if !reflect.DeepEqual(rec.Header(), alone.Header()) {
-				return kit.Failf("RESPONSE-ALTERED %s: response headers %v, the next handler alone answers with %v\n%s", what, rec.Header(), alone.Header(), c.brief())
+			if !reflect.DeepEqual(rec.Result().Header, alone.Result().Header) {
+				return kit.Failf("RESPONSE-ALTERED %s: response headers %v, the next handler alone answers with %v\n%s", what, rec.Result().Header, alone.Result().Header, c.brief())
 			}
 			continue
 		}
